@@ -9,9 +9,10 @@
     an operation is `{parents, desc, view}` where `desc` says whether the description starts with
     `"undo: restore to operation <id>"` / `"redo: restore to operation <id>"` (then it carries the
     index of that operation) or is anything else.
-  * `imm` is an input: "under the configuration of this command the working-copy commit of the
-    restored view is immutable"; then `finish_transaction` (cli_util.rs) creates a new commit on top
-    of it — the documented exception of C41.  The model reports it as `newWc`.
+  * `immWc` is an input: the working-copy portions whose commit (for the workspace running the
+    command) is immutable under the configuration of this command; if the restored view's portion is
+    one of them, `finish_transaction` (cli_util.rs) creates a new commit on top of that commit — the
+    documented exception of C41.  The model reports it as `newWc`.
 
   Core-only Lean (linked into the driver).
 -/
@@ -83,8 +84,8 @@ deriving DecidableEq, Repr
 /-- `tx.repo_mut().set_view(new_view); tx.finish(..)`: `WorkspaceCommandTransaction::finish` returns
 early with "Nothing changed." when the view is unchanged (`!tx.repo().has_changes()`); otherwise
 `finish_transaction` creates a new working-copy commit when the restored one is immutable. -/
-def finish (cur new : View) (desc : Desc) (imm : Bool) : Outcome :=
-  if new = cur then .nochange else .ok desc new imm
+def finish (cur new : View) (desc : Desc) (immWc : List Nat) : Outcome :=
+  if new = cur then .nochange else .ok desc new (immWc.contains new.wc)
 
 def getOp (log : OpLog) (i : Nat) : Except Err Op :=
   match log[i]? with
@@ -115,7 +116,7 @@ def isUndo : Desc → Bool
   | _ => false
 
 /-- `cmd_undo` with the repository loaded at operation `head` -/
-def cmdUndo (log : OpLog) (head : Nat) (imm : Bool) : Except Err Outcome :=
+def cmdUndo (log : OpLog) (head : Nat) (immWc : List Nat) : Except Err Outcome :=
   match getOp log head with
   | .error e => .error e
   | .ok headOp =>
@@ -135,10 +136,10 @@ def cmdUndo (log : OpLog) (head : Nat) (imm : Bool) : Except Err Outcome :=
           | .ok restoreOp =>
             .ok (finish headOp.view
               (viewWithDesiredPortionsRestored restoreOp.view headOp.view defaultWhat)
-              (.undo (undoTarget parentOp.desc parent)) imm)
+              (.undo (undoTarget parentOp.desc parent)) immWc)
 
 /-- `cmd_redo` -/
-def cmdRedo (log : OpLog) (head : Nat) (imm : Bool) : Except Err Outcome :=
+def cmdRedo (log : OpLog) (head : Nat) (immWc : List Nat) : Except Err Outcome :=
   match getOp log head with
   | .error e => .error e
   | .ok headOp =>
@@ -157,12 +158,12 @@ def cmdRedo (log : OpLog) (head : Nat) (imm : Bool) : Except Err Outcome :=
             | .ok restoreOp =>
               .ok (finish headOp.view
                 (viewWithDesiredPortionsRestored restoreOp.view headOp.view defaultWhat)
-                (.redo (redoTarget parentOp.desc parent)) imm)
+                (.redo (redoTarget parentOp.desc parent)) immWc)
         | _ => .error .internal
       else .error .nothingToRedo
 
 /-- `cmd_op_restore` -/
-def cmdRestore (log : OpLog) (head target : Nat) (what : List What) (imm : Bool) :
+def cmdRestore (log : OpLog) (head target : Nat) (what : List What) (immWc : List Nat) :
     Except Err Outcome :=
   match getOp log head with
   | .error e => .error e
@@ -171,7 +172,7 @@ def cmdRestore (log : OpLog) (head target : Nat) (what : List What) (imm : Bool)
     | .error e => .error e
     | .ok targetOp =>
       .ok (finish headOp.view (viewWithDesiredPortionsRestored targetOp.view headOp.view what)
-        .regular imm)
+        .regular immWc)
 
 /-- three-way merge of one opaque portion, where it is trivial -/
 def mergePortion (cur base other : Nat) : Option Nat :=
@@ -197,7 +198,7 @@ def mergeView (cur base other : View) : Option View :=
   else none
 
 /-- `cmd_op_revert`; `ok none` = the merge is outside the modelled cases -/
-def cmdRevert (log : OpLog) (head target : Nat) (what : List What) (imm : Bool) :
+def cmdRevert (log : OpLog) (head target : Nat) (what : List What) (immWc : List Nat) :
     Except Err (Option Outcome) :=
   match getOp log head with
   | .error e => .error e
@@ -215,6 +216,6 @@ def cmdRevert (log : OpLog) (head target : Nat) (what : List What) (imm : Bool) 
           | none => .ok none
           | some merged =>
             .ok (some (finish headOp.view (viewWithDesiredPortionsRestored merged headOp.view what)
-              .regular imm))
+              .regular immWc))
 
 end JjModel.Undo
